@@ -365,6 +365,15 @@ var fmCorpus = func() []engCase {
 		{Pattern: `\w+@x`, Text: R("ab@x @x")},                        // literal after a leading loop
 		{Pattern: `..a`, Text: R("bbabba")},                           // one character at a fixed distance
 		{Pattern: `\s+a(?:bc|x|b)c`, Text: R(" abc")},                 // landmark chain
+		// D44: a set core that overlaps the whitespace required after it gives repetitions back
+		{Pattern: `[xy]*([a ]{1,2}\s+)c(d)`, Text: R("a cd")},
+		{Pattern: `[xy]*([a ]{1,2}\s+)c(d)`, Text: R("xa cd")},
+		{Pattern: `[xy]*([a\t]{1,2}\s+)c(d)`, Text: R("a\tcd")},
+		{Pattern: `[xy]*(?:[a ]{1,2}\s+|q)c(d)`, Text: R("a cd")},
+		{Pattern: `[xy]*([a ]{2,3}\s+)c(d)`, Text: R("xa  cd a cd")},
+		// D43: U+FFFF in a Boyer-Moore prefix
+		{Pattern: "\uFFFFa", Text: R("x\uffffa")},
+		{Pattern: "a\uFFFF", Opts: rtl, Text: R("a\uffffx"), Start: 3},
 		{Pattern: `Ab`, Opts: ci, Text: R("xaBK")},
 		{Pattern: `ab`, Opts: rtl, Text: R("abxab"), Start: 5},
 		// every anchor bit in both directions, with the \G origin inside the input
